@@ -11,7 +11,7 @@ pub fn meta(m: &mut PropMeta) {
     m.rule = "model programs are generated from a generative model of the grammar (40-construct definition alphabet: every definition kind with every modifier, members with tags/optionality/values/attributes/doc comments, nested anonymous types, aliases, escaped keyword identifiers; all construct sequences up to the depth bound in 4 module scopes; every type expression up to the nesting bound in 10 type positions; all well-formed enumerator value sequences of length <= 3; integer spellings in 3 bases with underscores and signs at range boundaries; all string literals up to the atom bound as attribute arguments; every attribute form in 12 positions; tiny programs under EVERY assignment of separators to their token gaps), rendered under layout strategies (9 separator kinds incl. comments, CRLF, tabs, multi-byte comments, no-space; optional commas none/between/trailing), compiled by the real compiler, and the AST observed through the public API is compared field by field with the model (module, file attributes, definition list in order, members, modifiers, tags, optionality, enumerator values, attributes with unescaped arguments, type structure with the bound definition of every name, doc comment text). distinct = distinct rendered inputs; non-trivial = the program has at least one member and one non-default feature (tag, optional, attribute, modifier, explicit value, nested or named type).";
     m.explanation = "bounded-exhaustive program x layout enumeration; the expected AST is known by construction (the model), so the oracle is independent of slicec's lexer and parser";
     m.quick_bound = "construct sequences: depth 1 x 30 layouts x 4 scopes, depth 2 x 6 layouts x 4 scopes, depth 3 with rotating layout/scope; type nesting 2; string atoms <= 3; per-gap layouts over the first 6 gaps";
-    m.thorough_bound = "construct sequences: depth 3 x 6 layouts x 4 scopes; type nesting 2; string atoms <= 4; per-gap layouts over the first 8 gaps";
+    m.thorough_bound = "construct sequences: depth 3 x 6 layouts x 4 scopes, depth 4 (all 40^4, layout and scope rotate); type nesting 2; string atoms <= 4; per-gap layouts over the first 8 gaps";
 }
 
 pub struct Fidelity {
